@@ -33,7 +33,23 @@ func TestIndexStability(t *testing.T) {
 		iss := type3.NewRateLimitedIssuer(gen.RSAPool()[rsaIdx])
 		idxA := gen.P384KeyBytes().Draw(t, "indexKeyA")
 		idxB := gen.P384KeyBytes().Draw(t, "indexKeyB")
-		if bytes.Equal(idxA, idxB) {
+		if gen.Uniform(t, 5, "indexKeysRelated") == 0 {
+			// two DIFFERENT index keys that are byte-shifts or residues of one another: k and k*256 (k short), k and k + N
+			nOrd := elliptic.P384().Params().N
+			switch gen.Uniform(t, 3, "relation") {
+			case 0:
+				idxA = gen.Bytes(t, 40, 46, "shortIndexKey")
+				idxA[0] |= 1
+				idxB = append(append([]byte{}, idxA...), 0)
+			case 1:
+				idxB = append(append([]byte{}, idxA...), 0, 0)
+				idxB = new(big.Int).Mod(new(big.Int).SetBytes(idxB), nOrd).Bytes()
+			case 2:
+				idxB = new(big.Int).Sub(nOrd, new(big.Int).SetBytes(idxA)).Bytes() // the negated key: same X, other Y
+			}
+			s.Class("index-keys-related")
+		}
+		if bytes.Equal(idxA, idxB) || len(idxB) == 0 {
 			t.Skip("equal index keys")
 		}
 		mkKey := func(b []byte) *patecdsa.PrivateKey {
@@ -46,7 +62,7 @@ func TestIndexStability(t *testing.T) {
 		origins := []string{"a.example", "b.example", "shares-key-with-a.example"}
 		// the two origins with DIFFERENT index keys may be look-alikes: whatever normalisation, truncation or prefix
 		// matching happened to a name on its way to the index key shows as the wrong blinded request key / ID
-		nameKind := gen.Uniform(t, 10, "names")
+		nameKind := gen.Uniform(t, 11, "names")
 		switch nameKind {
 		case 1:
 			origins[1] = origins[0] + "\x00eu" // embedded NUL, the part before it is registered too
@@ -65,6 +81,9 @@ func TestIndexStability(t *testing.T) {
 			}
 		case 6:
 			origins[1] = " " + origins[0]
+		case 10:
+			tw := gen.Pick(t, gen.ChecksumTwins(), "twin")
+			origins[0], origins[1] = tw.A, tw.B
 		case 7, 8, 9:
 			la := gen.LookAlikes(origins[0])
 			origins[1] = gen.Pick(t, la, "lookAlike")
@@ -72,7 +91,7 @@ func TestIndexStability(t *testing.T) {
 				origins[1] = "b.example"
 			}
 		}
-		s.Class([]string{"names:plain", "names:embedded-NUL-extension", "names:trailing-dot", "names:upper-case", "names:block-boundary", "names:drawn-and-its-prefix", "names:leading-space", "names:look-alike", "names:look-alike", "names:look-alike"}[nameKind])
+		s.Class([]string{"names:plain", "names:embedded-NUL-extension", "names:trailing-dot", "names:upper-case", "names:block-boundary", "names:drawn-and-its-prefix", "names:leading-space", "names:look-alike", "names:look-alike", "names:look-alike", "names:checksum-twins"}[nameKind])
 		_ = iss.AddOriginWithIndexKey(origins[0], mkKey(idxA))
 		_ = iss.AddOriginWithIndexKey(origins[1], mkKey(idxB))
 		_ = iss.AddOriginWithIndexKey(origins[2], mkKey(idxA))
